@@ -1,6 +1,7 @@
 package main
 
 import (
+	"os"
 	"go/ast"
 	"go/constant"
 	"go/token"
@@ -19,6 +20,7 @@ type SpecEnv struct {
 	old     *State // pre-state for old(...)
 	pkgPath string // package in whose scope names are resolved
 	depth   int
+	entry   *SpecEnv // loop invariants: environment at loop entry, for entry(e)
 }
 
 func (env *SpecEnv) with(st *State) *SpecEnv {
@@ -59,6 +61,20 @@ func pkgPathOf(fn *ssa.Function) string {
 		return fn.Origin().Pkg.Pkg.Path()
 	}
 	return ""
+}
+
+// specLoad: heap read in a specification. Outside quantifier bodies the value
+// read is assumed well typed (ranges, 0 <= len <= cap, references allocated):
+// every store of a Go value and every callee preserves this.
+func (x *Exec) specLoad(env *SpecEnv, p *PtrV) Val {
+	v := x.loadIn(env.st, p)
+	if x.sc.noDef == 0 && env.st != nil {
+		saved := x.st
+		x.st = env.st
+		x.assumeTypeInv(v, tTrue)
+		x.st = saved
+	}
+	return v
 }
 
 func (x *Exec) evalBool(env *SpecEnv, e ast.Expr) *Term {
@@ -237,7 +253,7 @@ func (x *Exec) evalExpr(env *SpecEnv, e ast.Expr) Val {
 		return x.selectField(env, base, e.Sel.Name)
 	case *ast.StarExpr:
 		p := x.ptrOf(x.evalExpr(env, e.X))
-		return x.loadIn(env.st, p)
+		return x.specLoad(env, p)
 	case *ast.UnaryExpr:
 		switch e.Op {
 		case token.NOT:
@@ -257,7 +273,7 @@ func (x *Exec) evalExpr(env *SpecEnv, e ast.Expr) Val {
 			et, p := x.elemLoc(b)
 			p.Idx = add(b.Off, i)
 			_ = et
-			return x.loadIn(env.st, p)
+			return x.specLoad(env, p)
 		case *Scalar:
 			if b.t.Sort == SString {
 				i := x.evalInt(env, e.Index)
@@ -395,7 +411,7 @@ func (x *Exec) selectField(env *SpecEnv, base Val, name string) Val {
 	switch b := base.(type) {
 	case *PtrV:
 		p := x.fieldAddr(env, b, name)
-		return x.loadIn(env.st, p)
+		return x.specLoad(env, p)
 	case *StructV:
 		st := under(b.T).(*types.Struct)
 		for i := 0; i < st.NumFields(); i++ {
@@ -583,6 +599,11 @@ func (x *Exec) evalCall(env *SpecEnv, e *ast.CallExpr) Val {
 			specErr("old() used where there is no pre-state")
 		}
 		return x.evalExpr(env.with(env.old), e.Args[0])
+	case "entry":
+		if env.entry == nil {
+			specErr("entry() used outside of a loop invariant")
+		}
+		return x.evalExpr(env.entry, e.Args[0])
 	case "imp":
 		return mkBool(implies(x.evalBool(env, e.Args[0]), x.evalBool(env, e.Args[1])))
 	case "iff":
@@ -612,6 +633,14 @@ func (x *Exec) evalCall(env *SpecEnv, e *ast.CallExpr) Val {
 			}
 		}
 		specErr("len of %s", types.ExprString(e.Args[0]))
+	case "at":
+		// at(sl, k): element at absolute index k of the backing array of sl (no offset added)
+		if b, ok := x.evalExpr(env, e.Args[0]).(*SliceV); ok {
+			_, p := x.elemLoc(b)
+			p.Idx = x.evalInt(env, e.Args[1])
+			return x.specLoad(env, p)
+		}
+		specErr("at() on non-slice")
 	case "cap":
 		if v, ok := x.evalExpr(env, e.Args[0]).(*SliceV); ok {
 			return mkInt(v.Cap)
@@ -625,6 +654,50 @@ func (x *Exec) evalCall(env *SpecEnv, e *ast.CallExpr) Val {
 		}
 		k := x.keyTerm(mt.Key(), x.coerceTo(x.evalExpr(env, e.Args[1]), mt.Key()))
 		return mkBool(x.mapHas(env.st, m.T, mt, m.t, k))
+	case "forallp":
+		// forallp(i, trigger, body): integer quantifier with an explicit instantiation pattern
+		// leading bare identifiers are the bound variables
+		nv := 0
+		for nv < len(e.Args)-2 {
+			if _, ok := e.Args[nv].(*ast.Ident); !ok {
+				break
+			}
+			nv++
+		}
+		if nv == 0 || len(e.Args) < nv+2 {
+			specErr("forallp(i [, j...], trigger..., body)")
+		}
+		type savedVar struct {
+			name string
+			v    Val
+			had  bool
+		}
+		var savedVars []savedVar
+		decl := ""
+		for _, a := range e.Args[:nv] {
+			id := a.(*ast.Ident)
+			x.sc.n++
+			qn := "q!" + id.Name + strconv.Itoa(x.sc.n)
+			sv, had := env.vars[id.Name]
+			savedVars = append(savedVars, savedVar{id.Name, sv, had})
+			env.vars[id.Name] = x.scalarVal(tInt, &Term{qn, SInt})
+			decl += "(" + qn + " Int)"
+		}
+		x.sc.noDef++
+		var trigs []string
+		for _, ta := range e.Args[nv : len(e.Args)-1] {
+			trigs = append(trigs, x.flatten(x.evalExpr(env, ta))[0].S)
+		}
+		bt := x.evalBool(env, e.Args[len(e.Args)-1])
+		x.sc.noDef--
+		for _, sv := range savedVars {
+			if sv.had {
+				env.vars[sv.name] = sv.v
+			} else {
+				delete(env.vars, sv.name)
+			}
+		}
+		return mkBool(&Term{"(forall (" + decl + ") (! " + bt.S + " :pattern (" + strings.Join(trigs, " ") + ")))", SBool})
 	case "forall", "exists":
 		// forall(i, body) / forall(i, T, body): i ranges over int (or T)
 		id, ok := e.Args[0].(*ast.Ident)
@@ -726,7 +799,13 @@ func (x *Exec) applySpecFn(env *SpecEnv, fn *SpecFn, args []ast.Expr) Val {
 	if env.depth > 40 {
 		specErr("%s: spec function recursion too deep (%s)", fn.Where, fn.Name)
 	}
-	inner := &SpecEnv{x: x, vars: map[string]Val{}, st: env.st, old: env.old, pkgPath: fn.Pkg, depth: env.depth + 1}
+	if r := x.tableApply(env, fn, args); r != nil {
+		return r
+	}
+	if fn.Opaque {
+		return x.opaqueApply(env, fn, args)
+	}
+	inner := &SpecEnv{x: x, vars: map[string]Val{}, st: env.st, old: env.old, pkgPath: fn.Pkg, depth: env.depth + 1, entry: env.entry}
 	if s, ok := env.vars["self"]; ok {
 		inner.vars["self"] = s
 	}
@@ -744,4 +823,164 @@ func (x *Exec) applySpecFn(env *SpecEnv, fn *SpecFn, args []ast.Expr) Val {
 		return &Scalar{s.T, x.sc.def(s.t, fn.Name)}
 	}
 	return r
+}
+
+// tableApply: a one-parameter spec function over a closed-world func type whose
+// body depends only on that parameter is turned into a lookup table (ground
+// facts per function id) instead of a large disjunction.
+func (x *Exec) tableApply(env *SpecEnv, fn *SpecFn, args []ast.Expr) Val {
+	if len(fn.Params) != 1 {
+		return nil
+	}
+	pt := x.resolveType(fn.Pkg, parseExpr(fn.Params[0].Type, fn.Where))
+	var blk [2]int
+	isByte := false
+	if os.Getenv("GOVC_NOFNTBL") != "" {
+		return nil
+	}
+	if bt, ok := under(pt).(*types.Basic); ok && bt.Kind() == types.Uint8 && os.Getenv("GOVC_BYTETBL") != "" {
+		blk = [2]int{1, 255}
+		isByte = true
+	} else {
+		nt, ok := pt.(*types.Named)
+		if !ok || nt.Obj().Pkg() == nil {
+			return nil
+		}
+		key := nt.Obj().Pkg().Path() + "::" + nt.Obj().Name()
+		blk, ok = x.eng.ftBlock[key]
+		if !ok {
+			return nil
+		}
+	}
+	rt := x.resolveType(fn.Pkg, parseExpr(fn.Result, fn.Where))
+	if rt == nil {
+		return nil
+	}
+	rsort := scalarSort(rt)
+	if rsort != SBool && rsort != SInt {
+		return nil
+	}
+	ck := fn.Pkg + "::" + fn.Name
+	x.eng.mu.Lock()
+	rows, have := x.eng.tableCache[ck]
+	x.eng.mu.Unlock()
+	if !have {
+		rows = x.buildTable(fn, pt, blk, isByte)
+		x.eng.mu.Lock()
+		x.eng.tableCache[ck] = rows
+		x.eng.mu.Unlock()
+	}
+	if rows == nil {
+		return nil
+	}
+	name := quoteName("tbl:" + fn.Name)
+	if !x.sc.seen[name] {
+		x.sc.seen[name] = true
+		x.sc.emit("(declare-fun " + name + " (Int) " + string(rsort) + ")")
+		var b strings.Builder
+		b.WriteString("(assert (and")
+		b.WriteString(" (= (" + name + " 0) " + rows[0] + ")")
+		for i := blk[0]; i <= blk[1]; i++ {
+			b.WriteString(" (= (" + name + " " + strconv.Itoa(i) + ") " + rows[i-blk[0]+1] + ")")
+		}
+		b.WriteString("))")
+		x.sc.emit(b.String())
+	}
+	v := x.evalExpr(env, args[0])
+	var id *Term
+	switch fv := v.(type) {
+	case *FuncV:
+		id = fv.Id
+	case *Scalar:
+		id = fv.t
+	default:
+		return nil
+	}
+	return &Scalar{rt, app(rsort, name, id)}
+}
+
+// buildTable evaluates fn's body for nil and for every member id; nil if some row is not a literal.
+func (x *Exec) buildTable(fn *SpecFn, pt types.Type, blk [2]int, isByte bool) []string {
+	var rows []string
+	ids := []int{0}
+	for i := blk[0]; i <= blk[1]; i++ {
+		ids = append(ids, i)
+	}
+	ok := true
+	func() {
+		defer func() {
+			if r := recover(); r != nil {
+				if _, isSpec := r.(*SpecErr); isSpec {
+					ok = false
+					return
+				}
+				panic(r)
+			}
+		}()
+		x.sc.noDef++
+		defer func() { x.sc.noDef-- }()
+		for _, id := range ids {
+			inner := &SpecEnv{x: x, vars: map[string]Val{}, st: nil, old: nil, pkgPath: fn.Pkg, depth: 1}
+			if isByte {
+				inner.vars[fn.Params[0].Name] = &Scalar{pt, intLit(int64(id))}
+			} else {
+				inner.vars[fn.Params[0].Name] = &FuncV{T: pt, Id: intLit(int64(id))}
+			}
+			r := x.evalExpr(inner, fn.expr())
+			s, isS := r.(*Scalar)
+			if !isS || !(isLitTrue(s.t) || isLitFalse(s.t) || isNumLit(s.t)) {
+				ok = false
+				return
+			}
+			rows = append(rows, s.t.S)
+		}
+	}()
+	if !ok {
+		return nil
+	}
+	return rows
+}
+
+// opaqueApply: a pure spec function over scalars becomes an uninterpreted SMT
+// function whose definition is an axiom triggered by its applications, so that
+// facts about it are passed around by congruence instead of being re-derived.
+func (x *Exec) opaqueApply(env *SpecEnv, fn *SpecFn, args []ast.Expr) Val {
+	rt := x.resolveType(fn.Pkg, parseExpr(fn.Result, fn.Where))
+	if rt == nil || scalarSort(rt) == "" {
+		specErr("%s: opaque %s needs a scalar result type", fn.Where, fn.Name)
+	}
+	name := quoteName("op:" + fn.Name)
+	var ptypes []types.Type
+	for _, p := range fn.Params {
+		pt := x.resolveType(fn.Pkg, parseExpr(p.Type, fn.Where))
+		if pt == nil || scalarSort(pt) == "" {
+			specErr("%s: opaque %s: parameter %s must be scalar", fn.Where, fn.Name, p.Name)
+		}
+		ptypes = append(ptypes, pt)
+	}
+	if !x.sc.seen[name] {
+		x.sc.seen[name] = true
+		sig, decl, call := "", "", "("+name
+		inner := &SpecEnv{x: x, vars: map[string]Val{}, st: nil, old: nil, pkgPath: fn.Pkg, depth: env.depth + 1}
+		for i, p := range fn.Params {
+			srt := scalarSort(ptypes[i])
+			sig += string(srt) + " "
+			vn := "a!" + p.Name
+			decl += "(" + vn + " " + string(srt) + ")"
+			call += " " + vn
+			inner.vars[p.Name] = x.scalarVal(ptypes[i], &Term{vn, srt})
+		}
+		call += ")"
+		x.sc.emit("(declare-fun " + name + " (" + sig + ") " + string(scalarSort(rt)) + ")")
+		x.sc.noDef++
+		body := x.flatten(x.evalExpr(inner, fn.expr()))[0]
+		x.sc.noDef--
+		x.sc.emit("(assert (forall (" + decl + ") (! (= " + call + " " + body.S + ") :pattern (" + call + "))))")
+	}
+	var ts []*Term
+	for i, a := range args {
+		v := x.coerceTo(x.evalExpr(env, a), ptypes[i])
+		ts = append(ts, x.flatten(v)[0])
+	}
+	return x.scalarVal(rt, app(scalarSort(rt), name, ts...))
 }
